@@ -364,6 +364,54 @@ func runC06(c *Ctx) {
 			c.Pred("paren-newline", "paren-newline-only-separator", "zone="+hxs(txt), same, res2, res, nt)
 		}
 	}
+	// 3b. $INCLUDE = inlining: any run of entries moved into an included file (no $ORIGIN inside it, explicit owners
+	//     at the seams) gives the same records; TTL state ($TTL and last explicit TTL) flows in and out
+	for i := 0; i < c.Scale(2500, 50000); i++ {
+		ls := genZone(r)
+		for k := range ls {
+			if ls[k].kind == "rr" && ls[k].owner == "" {
+				ls[k].owner = []string{"www", "@", "mail"}[r.Intn(3)]
+			}
+		}
+		a := r.Intn(len(ls) + 1)
+		b := a + r.Intn(len(ls)-a+1)
+		hasOrigin := false
+		for _, l := range ls[a:b] {
+			if l.kind == "origin" {
+				hasOrigin = true
+			}
+		}
+		// TTL state flows into the included file but (the sub-parser gets a copy of the pointer) not back out, so the
+		// comparison is made where that is not observable: no $TTL inside the part, and either a $TTL directive is
+		// already in force (then explicit TTLs never become the default) or the part states no TTL at all
+		ttlInside, explicitInside, directiveBefore := false, false, false
+		for _, l := range ls[a:b] {
+			if l.kind == "ttl" {
+				ttlInside = true
+			}
+			if l.kind == "rr" && l.ttl >= 0 {
+				explicitInside = true
+			}
+		}
+		for _, l := range ls[:a] {
+			if l.kind == "ttl" {
+				directiveBefore = true
+			}
+		}
+		if hasOrigin || ttlInside || (explicitInside && !directiveBefore) {
+			continue
+		}
+		origin := []string{"example.org.", "Zone.Example."}[r.Intn(2)]
+		defTTL := []int{-1, 3600, 0}[r.Intn(3)]
+		whole := renderZone(r, ls, 0, false)
+		recs, res := parseZone(whole, origin, defTTL, nil)
+		mainTxt := renderZone(r, ls[:a], 0, false) + "$INCLUDE part.db\n" + renderZone(r, ls[b:], 0, false)
+		fsys := fstest.MapFS{"part.db": {Data: []byte(renderZone(r, ls[a:b], 0, false))}}
+		recs2, res2 := parseZone(mainTxt, origin, defTTL, fsys)
+		same := (res == "ok") == (res2 == "ok") && (res != "ok" || strings.Join(recs, "\n") == strings.Join(recs2, "\n"))
+		c.Pred("include", "include-is-inlining", "main="+hxs(mainTxt)+" part="+hxs(string(fsys["part.db"].Data)), same,
+			res2+" "+hdrsOf(recs2), res+" "+hdrsOf(recs), len(recs) > 1 && b > a)
+	}
 	// 4. $GENERATE end to end = the expanded lines parsed one by one
 	for i := 0; i < c.Scale(300, 6000); i++ {
 		start, stop, step := r.Intn(10), 0, 1+r.Intn(3)
